@@ -110,7 +110,8 @@ Record dat := Dat {
   d_calls : Z;        (* handler invocations so far *)
   d_late : bool;      (* a handler was invoked while stopped = true *)
   d_pufail : bool;    (* processUnconfirmedTxs of the current round had a processing error (failed = true / left its loop) *)
-  d_overlap : bool    (* Run started goroutines while goroutines of an earlier round still existed *)
+  d_overlap : bool;   (* Run started goroutines while goroutines of an earlier round still existed *)
+  d_rlock : bool      (* the tx repository's unconfirmed lock was left held by a goroutine that has ended *)
 }.
 
 Record sw := SW {
@@ -153,7 +154,7 @@ Definition set_thread w t s := set_thr w (tset (w_thr w) t s).
 
 Definition sw_init : sw :=
   SW (Ctl RLoop false false false false 0) CNone 0 0 (Chs false 0 false 0)
-     (Thr TNone TNone TNone TNone TNone TNone TNone TNone TNone) (Cnt 0 0 0) false (Dat 0 0 0 false false false).
+     (Thr TNone TNone TNone TNone TNone TNone TNone TNone TNone) (Cnt 0 0 0) false (Dat 0 0 0 false false false false).
 
 (* thread classes *)
 Definition is_incoming (t : tid) : bool := match t with MI | CD | MU => true | _ => false end.
@@ -182,11 +183,13 @@ Definition callback w t :=
   let d := w_dat w in
   set_dat w (Dat (if mutates t then d_mem d + 1 else d_mem d) (d_disk d)
                  (if can_call t then d_calls d + 1 else d_calls d)
-                 (d_late d || (can_call t && stopped w)) (d_pufail d) (d_overlap d)).
+                 (d_late d || (can_call t && stopped w)) (d_pufail d) (d_overlap d) (d_rlock d)).
 Definition set_pufail w :=
-  let d := w_dat w in set_dat w (Dat (d_mem d) (d_disk d) (d_calls d) (d_late d) true (d_overlap d)).
+  let d := w_dat w in set_dat w (Dat (d_mem d) (d_disk d) (d_calls d) (d_late d) true (d_overlap d) (d_rlock d)).
 Definition save w :=
-  let d := w_dat w in set_dat w (Dat (d_mem d) (d_mem d) (d_calls d) (d_late d) (d_pufail d) (d_overlap d)).
+  let d := w_dat w in set_dat w (Dat (d_mem d) (d_mem d) (d_calls d) (d_late d) (d_pufail d) (d_overlap d) (d_rlock d)).
+Definition set_rlock w :=
+  let d := w_dat w in set_dat w (Dat (d_mem d) (d_disk d) (d_calls d) (d_late d) (d_pufail d) (d_overlap d) true).
 
 (* channels *)
 Definition ch_open w c := match c with COut => o_open (w_ch w) | CTx => x_open (w_ch w) end.
@@ -228,6 +231,9 @@ Variable cap : Z.       (* capacity of both channels (100 in the code) *)
 Variable ucfg : bool.   (* config.UntrustedCount != 0: monitorUntrustedNodes is started *)
 Variable daf : bool.    (* processUnconfirmedTxs keeps draining its channel after a processing error (the code
                            since fix 99e17c5); false: it leaves its loop (requestStop, break) as it did before *)
+Variable unlk : bool.   (* ProcessBlock releases the tx repository's unconfirmed lock (held from GetUnconfirmed to
+                           FinalizeUnconfirmed / ReleaseUnconfirmed) on every error exit (the code); false: an error
+                           exit that returns without ReleaseUnconfirmed *)
 Variable sdrain : bool. (* sendOutgoing keeps emptying its channel after a failed socket write (the code, both in
                            node.go and in untrusted_node.go); false: it returns on the first failed write *)
 
@@ -251,7 +257,7 @@ Definition fail_exit w (t : tid) : sw :=
   match t with
   | MI => exit_thread (request_stop w) MI          (* check() failed: requestStop; break *)
   | CD | RT => exit_thread (restart w) t           (* GetNewSafe failed / a request timed out: restart; break *)
-  | PB => exit_thread w PB                         (* ProcessBlock failed: return err *)
+  | PB => exit_thread (if unlk then w else set_rlock w) PB   (* ProcessBlock failed: return err *)
   | UN => exit_thread w UN
   | _ => end_body w t
   end.
@@ -347,7 +353,7 @@ Definition connect w : sw :=
      COpen 0 (w_gen w + 1) (Chs true 1 true 0)
      (Thr TSpawned TSpawned TSpawned TSpawned TSpawned TSpawned (if ucfg then TSpawned else t_mu T) (t_un T) (t_ap T))
      (w_cnt w) (w_ustop w)
-     (Dat (d_mem d) (d_disk d) (d_calls d + 1) (d_late d || c_stopped c) false (d_overlap d || ov)).
+     (Dat (d_mem d) (d_disk d) (d_calls d + 1) (d_late d || c_stopped c) false (d_overlap d || ov) (d_rlock d)).
 
 Definition step_run w (ok : bool) : option sw :=
   match pc_of w with
@@ -359,7 +365,8 @@ Definition step_run w (ok : bool) : option sw :=
   | RCloseOut => if ch_locked w COut then None else Some (set_pc (set_ch_open w COut false) RCloseTx)
   | RCloseTx => if ch_locked w CTx then None else Some (set_pc (set_ch_open w CTx false) RWaitProc)
   | RWaitProc => if n_proc (w_cnt w) =? 0 then Some (set_pc w RSave) else None
-  | RSave => Some (set_pc (save w) RDecide)
+  | RSave => if d_rlock (w_dat w) then None              (* txs.Save needs the unconfirmed lock *)
+             else Some (set_pc (save w) RDecide)
   | RDecide => Some (if negb (needs w) || hard w then set_pc w RExit
                      else set_pc (set_stopping (set_needs w false) false) RLoop)
   | RExit => Some (set_pc (set_stopped w true) RDone)
@@ -508,8 +515,8 @@ End Model.
    in a few counters next to it (the synchronisation protocol itself is the subject of C02). *)
 
 Definition scap : Z := 100.
-Definition sstep_sys := step scap false true true.
-Definition sapply := apply scap false true true.
+Definition sstep_sys := step scap false true true true.
+Definition sapply := apply scap false true true true.
 
 Definition enabled (w : sw) (a : act) : bool := match sstep_sys w a with Some _ => true | None => false end.
 
@@ -569,7 +576,10 @@ Record sext := SExt {
   x_seen : list Z;    (* relevant txs tracked by the tx repository (delivered once) *)
   x_apin : Z;         (* calls of the last api_fill *)
   x_apiok : Z;        (* ... that returned nil *)
-  x_apierr : Z        (* ... that returned an error *)
+  x_apierr : Z;       (* ... that returned an error *)
+  x_pend : Z;         (* relevant txs of a burst sent by the peer and not yet read by monitorIncoming *)
+  x_ptx : Z;          (* tx of the block whose processing is parked in the output fetcher (-1: none) *)
+  x_burst : Z         (* relevant txs of bursts (delivered, or going to be once the consumer is released) *)
 }.
 
 Record scn := Scn {
@@ -591,7 +601,7 @@ Record scn := Scn {
   s_x : sext
 }.
 
-Definition scn_init : scn := Scn sw_init true 0 false (-100) (-1) 0 0 false 0 0 0 0 [] (-1) (SExt [] 0 0 0).
+Definition scn_init : scn := Scn sw_init true 0 false (-100) (-1) 0 0 false 0 0 0 0 [] (-1) (SExt [] 0 0 0 0 (-1) 0).
 
 Definition with_w (s : scn) (w : sw) : scn :=
   Scn w (s_listen s) (s_acc s) (s_popen s) (s_base s) (s_sent s) (s_served s) (s_tip s) (s_ready s) (s_unconf s)
@@ -633,7 +643,8 @@ Inductive sop :=
 | SPing | SAddr (n : Z) | SClose | SCloseStop | SSilence | SAge | SWaitRestart
 | SHold (k : Z) | SRelease (e : bool)
 | SStop | SStopAsync | SStopWait | SQuiet | SStored | SAnnounced | SCounts | SDrain | SSleep
-| SApiTx (t : Z) (rel : bool) | SApiFill (n : Z) | SApiResult | SBlockInv | SRestart.
+| SApiTx (t : Z) (rel : bool) | SApiFill (n : Z) | SApiResult | SBlockInv | SRestart
+| STxBlock (t : Z) (rel : bool) | SBurstRel (n : Z) | SDelivered (k : Z).
 
 Fixpoint iter {A} (n : nat) (f : A -> A) (x : A) : A := match n with O => x | S n' => iter n' f (f x) end.
 
@@ -674,7 +685,7 @@ Definition with_x (s : scn) (x : sext) : scn :=
       (s_peers s) (s_hold s) (s_held s) (s_ann s) (s_stopcalls s) x.
 Definition seen (s : scn) (t : Z) : bool := existsb (Z.eqb t) (x_seen (s_x s)).
 Definition add_seen (s : scn) (t : Z) : sext :=
-  let x := s_x s in SExt (x_seen x ++ [t]) (x_apin x) (x_apiok x) (x_apierr x).
+  let x := s_x s in SExt (x_seen x ++ [t]) (x_apin x) (x_apiok x) (x_apierr x) (x_pend x) (x_ptx x) (x_burst x).
 Definition ap_idle (w : sw) : bool := match t_ap (w_thr w) with TNone => true | _ => false end.
 (* one call of Node.HandleTx by the application, and whatever it enables *)
 Definition api_call (s : scn) (w : sw) : sw := ssettle s (sapply w AApiTx).
@@ -796,13 +807,22 @@ Definition sstep (s : scn) (o : sop) : scn * obs :=
       fin (Scn w (s_listen s) (s_acc s) (s_popen s) (s_base s) (s_sent s) (s_served s) (s_tip s) (s_ready s) (s_unconf s)
                (s_peers s) k (s_held s) (s_ann s) (s_stopcalls s) (s_x s)) [OK]
   | SRelease e =>
+      let x := s_x s in
       let w1 := if s_held s =? 1 then sapply w (AStep PU (if e then KFail else KEnd) 0)
-                else if s_held s =? 2 then sapply (sapply w (AStep PB KCall 0)) (AStep PB KEnd 0)
+                else if s_held s =? 2 then
+                  (if e then sapply w (AStep PB KFail 0)                                (* ProcessBlock fails: processBlocks returns *)
+                   else sapply (sapply w (AStep PB KCall 0)) (AStep PB KEnd 0))
                 else w in
       let u := if (s_held s =? 1) && (s_hold s =? 100) then s_unconf s + 1 else s_unconf s in
+      (* the tx of a block parked in the fetcher is delivered once the fetcher answers *)
+      let seen1 := if (s_held s =? 2) && negb e && (0 <=? x_ptx x) then x_seen x ++ [x_ptx x] else x_seen x in
       let s1 := Scn w1 (s_listen s) (s_acc s) (s_popen s) (s_base s) (s_sent s) (s_served s) (s_tip s) (s_ready s) u
-                    (s_peers s) 0 0 (s_ann s) (s_stopcalls s) (s_x s) in
-      fin (with_w s1 (ssettle s1 w1)) [OK]
+                    (s_peers s) 0 0 (s_ann s) (s_stopcalls s)
+                    (SExt seen1 (x_apin x) (x_apiok x) (x_apierr x) 0 (-1) (x_burst x)) in
+      let w2 := ssettle s1 w1 in
+      (* monitorIncoming now reads what the peer had sent meanwhile *)
+      let w3 := iter (Z.to_nat (x_pend x)) (fun w0 => if alive (with_w s1 w0) then deliver s1 w0 [KTx] else w0) w2 in
+      fin (with_w s1 w3) [OK]
   | SStop =>
       let w1 := ssettle s (sapply (sapply w AStopFlag) AStopReq) in
       fin_stop (with_w s w1) [OK; b2z (stopped w1); b2z (stopped w1)]
@@ -842,14 +862,14 @@ Definition sstep (s : scn) (o : sop) : scn * obs :=
       else fin (with_w s (api_call s w)) [OK; 0; 0]
   | SApiFill n =>
       let '(w1, ok, err) := api_calls (Z.to_nat n) s w 0 0 in
-      fin (with_x (with_w s w1) (SExt (x_seen (s_x s)) n ok err)) [OK; ok + err; b2z (negb (ap_idle w1))]
+      fin (with_x (with_w s w1) (SExt (x_seen (s_x s)) n ok err (x_pend (s_x s)) (x_ptx (s_x s)) (x_burst (s_x s)))) [OK; ok + err; b2z (negb (ap_idle w1))]
   | SApiResult =>
       let x := s_x s in
       if ap_idle w then
         (* the call that was waiting has returned (it was queued); the goroutine makes its remaining calls *)
         let waited := if x_apiok x + x_apierr x <? x_apin x then 1 else 0 in
         let '(w1, ok, err) := api_calls (Z.to_nat (x_apin x - x_apiok x - x_apierr x - waited)) s w (x_apiok x + waited) (x_apierr x) in
-        fin (with_x (with_w s w1) (SExt (x_seen x) (x_apin x) ok err)) [OK; b2z (ap_idle w1); ok; err; 0]
+        fin (with_x (with_w s w1) (SExt (x_seen x) (x_apin x) ok err (x_pend x) (x_ptx x) (x_burst x))) [OK; b2z (ap_idle w1); ok; err; 0]
       else fin s [OK; 0; x_apiok x; x_apierr x; 0]
   | SBlockInv =>
       if alive s then
@@ -857,6 +877,43 @@ Definition sstep (s : scn) (o : sop) : scn * obs :=
         fin (Scn w1 (s_listen s) (s_acc s) (s_popen s) (s_base s) (s_sent s) (s_served s) (s_tip s) false (s_unconf s)
                  (s_peers s) (s_hold s) (s_held s) (s_ann s) (s_stopcalls s) (s_x s)) [OK; 0]
       else fin s [OK; b2z (s_ready s)]
+  | STxBlock t rel =>
+      if alive s then
+        let base := if s_sent s <? 0 then s_base s else s_sent s in
+        let w1 := deliver s (deliver s w [KCall; KOut]) [] in       (* headers -> getdata ; the block arrives *)
+        let h := s_tip s + 1 in
+        let new := rel && negb (seen s t) in
+        match t_pb (w_thr w1) with
+        | TLive PTop _ =>
+            if stopping w1 || negb (s_held s =? 0) then fin (with_w s w1) [OK; 1; 0; 0] else
+            let w2 := sapply w1 (AStep PB KEnd 4) in
+            if (s_hold s =? 3) || ((s_hold s =? 100) && new) then
+              (* parked inside HandleHeaders, or (after it) inside the output fetcher for the new relevant tx *)
+              let w3 := if s_hold s =? 3 then w2 else sapply w2 (AStep PB KCall 0) in
+              let x := s_x s in
+              fin (Scn w3 (s_listen s) (s_acc s) (s_popen s) (s_base s) (base + 1) (s_served s + 1) h (s_ready s) (s_unconf s)
+                       (s_peers s) (s_hold s) 2 (s_ann s ++ [h]) (s_stopcalls s)
+                       (SExt (x_seen x) (x_apin x) (x_apiok x) (x_apierr x) (x_pend x) (if new then t else -1) (x_burst x)))
+                  [OK; 1; 1; 0]
+            else
+              let w3 := ssettle s (sapply (sapply (sapply w2 (AStep PB KCall 0)) (AStep PB KCall 0)) (AStep PB KEnd 0)) in
+              fin (Scn w3 (s_listen s) (s_acc s) (s_popen s) (s_base s) (base + 1) (s_served s + 1) h (s_ready s) (s_unconf s)
+                       (s_peers s) (s_hold s) (s_held s) (s_ann s ++ [h]) (s_stopcalls s)
+                       (if new then add_seen s t else s_x s))
+                  [OK; 1; 1; b2z new]
+        | _ => fin (with_w s w1) [OK; 1; 0; 0]      (* processBlocks is gone: the block is never processed *)
+        end
+      else fin s [OK; 0; 0; 0]
+  | SBurstRel n =>
+      let x := s_x s in
+      let '(w1, pend) := iter (Z.to_nat n) (fun wp => let '(w0, p0) := wp in
+                                                       if alive (with_w s w0) then (deliver s w0 [KTx], p0) else (w0, p0 + 1))
+                              (w, x_pend x) in
+      let full := (scap <=? x_len (w_ch w1)) && at_send CTx (t_mi (w_thr w1)) in
+      fin (Scn w1 (s_listen s) (s_acc s) (s_popen s) (s_base s) (s_sent s) (s_served s) (s_tip s) (s_ready s) (s_unconf s + n)
+               (s_peers s) (s_hold s) (s_held s) (s_ann s) (s_stopcalls s)
+               (SExt (x_seen x) (x_apin x) (x_apiok x) (x_apierr x) pend (x_ptx x) (x_burst x + n))) [OK; b2z full]
+  | SDelivered k => fin s [OK; zlen (x_seen (s_x s)) + x_burst (s_x s)]
   | SRestart =>
       (* a new process on the same storage: what was saved is what it knows *)
       let s1 := Scn sw_init (s_listen s) 0 false (-100) (-1) (s_tip s) (s_tip s) false (s_unconf s)
@@ -883,6 +940,7 @@ Definition srun (ops : list sop) : list obs := srun_from scn_init ops.
    908 a call of the public API (Node.HandleTx) panicked
    909 a call of the public API did not return although nothing was being held
    910 a relevant tx was delivered to the handlers as a new tx twice (also across a restart on the same storage)
+   911 fewer distinct new-tx notifications than relevant txs received from the peer while in sync
    897 malformed trace *)
 Fixpoint contiguous_from (h : Z) (l : list Z) : bool :=
   match l with
@@ -914,10 +972,12 @@ Fixpoint c19_monitor_from (i : Z) (held : bool) (tip : Z) (dl : list Z) (ops : l
       | SStored, [_; x] => if x =? -2 then Some (i, [903]) else next held tip
       | SAnnounced, _ :: l => if contiguous_from 1 l then next held tip else Some (i, [904])
       | SBlocks _, [_; n] => next held (tip + n)
+      | STxBlock _ _, [_; _; ann; _] => next held (tip + ann)
       | STx t true, [_; d] =>
           if d =? 1 then (if existsb (Z.eqb t) dl then Some (i, [910]) else next_d held tip (t :: dl)) else next held tip
       | SApiTx t true, [_; _; d] =>
           if d =? 1 then (if existsb (Z.eqb t) dl then Some (i, [910]) else next_d held tip (t :: dl)) else next held tip
+      | SDelivered k, [_; n] => if n <? k then Some (i, [911]) else next held tip
       | SApiResult, [_; fin; _; _; panics] =>
           if 0 <? panics then Some (i, [908]) else if (fin =? 0) && negb held then Some (i, [909]) else next held tip
       | SAccept, [_; got; last] => if (got =? 1) && negb (last =? tip) then Some (i, [906]) else next held tip
